@@ -37,6 +37,8 @@ def parseOp (ws : List String) : Option Op :=
   | ["revoke", s] => some (.revoke (nat s))
   | ["bcw", s, v] => some (.bcw (nat s) (nat v))
   | ["gkm", s, _] => some (.fwrite (nat s))
+  -- SetVIDVerificationStatement (vendor id field alone; the fields are outside the model)
+  | ["vvs", s, _] => some (.vvs (nat s))
   -- handler level: KeySetWrite (a fabric-scoped write whose content the model does not track) and the
   -- AddGroup command of the Groups cluster (the model's group table write)
   | ["ksw", s, _, _] => some (.fwrite (nat s))
@@ -271,8 +273,8 @@ def fabEntry (sec : String) (fab : Nat) : String :=
   | none => "-"
 
 /-- the per-fabric sections of the extension that live in the fabric blob: (memory, store) - the group
-key map, the group table WITH the group names, the group key sets -/
-def fabSecs : List (String × String) := [("K", "KK"), ("G", "KG"), ("KS", "KKS")]
+key map, the group table WITH the group names, the group key sets, the vendor id (SetVIDVerificationStatement) -/
+def fabSecs : List (String × String) := [("K", "KK"), ("G", "KG"), ("KS", "KKS"), ("V", "KV")]
 
 /-- a committed-view key `<section>:<fab>` of one of them -/
 def isFabKey (k : String) : Bool := fabSecs.any (fun p => k.startsWith (p.1 ++ ":"))
@@ -397,7 +399,16 @@ def oracle (st : OSt) (op : Op) (v : View) (kind : String) (dropped : List Nat :
   -- what the acknowledgements committed
   let underFs : Bool := p.armed = some opFab && !expiredByTimer
   let isWrite : Bool := match op with
-    | .acl .. | .grp .. | .label .. | .fwrite _ => true
+    | .acl .. | .grp .. | .label .. | .fwrite _ | .vvs _ => true
+    | _ => false
+  -- SetVIDVerificationStatement: outside a fail-safe of its fabric it is a fabric-scoped write like the
+  -- others (acknowledged = the record is stored). Under the fail-safe of its fabric the PROPERTY is
+  -- silent about the command's own fields (Matter: stored at once unless a NOC command is pending; the
+  -- repaired code lets them also ride along with deferred writes) - the committed vendor id follows
+  -- what the store holds; everything ELSE staged under the fail-safe stays uncommitted, so a record
+  -- flushed by this command shows up as `rollback-mismatch` when the fail-safe ends without completion
+  let isVvs : Bool := match op with
+    | .vvs _ => true
     | _ => false
   let isComplete : Bool := match op with
     | .complete _ => true
@@ -506,6 +517,7 @@ def oracle (st : OSt) (op : Op) (v : View) (kind : String) (dropped : List Nat :
   let setFab (c : List (String × String)) : List (String × String) :=
     fabSecs.foldl (fun c p => setS c s!"{p.1}:{opFab}" (fabEntry (xm p.1) opFab)) c
   let cx2 := if hasX && okS && isWrite && !underFs then setFab cx1 else cx1
+  let cx2 := if hasX && okS && isVvs && underFs then setS cx2 s!"V:{opFab}" (fabEntry (xm "KV") opFab) else cx2
   let cx3 := if hasX && isComplete && okS then setFab cx2 else cx2
   -- a fabric that goes away takes its bindings with it (`LifecycleOp::FabricRemoval`, stored at once)
   let cx4 := if removed.isEmpty || restartLike op then cx3 else
